@@ -27,6 +27,18 @@ model's slices for the value whatever its type.  A value that is not a plain Pyt
 TypeError / ValueError / OverflowError (counted, not judged); what is accepted is judged.  Inputs too long for unary numbers
 (16-bit chunk sizes) are compared after division by a common factor (C18_requests_scale).  All request logs are capped
 (RunawayRequests): a pass that does not end is reported with its first request that is not a consecutive continuation.
+
+Several readers alive at the same time (world_cases): two or three reader objects (Parquet / FITS / HDF5 / data frame / random
+generator; on different sources or on the same one; chunk sizes not aligned with the row groups) are constructed, advanced by
+single next() calls, peeked, restarted, probed, read completely and closed in interleaved order - in lock-step, with one reader
+acting in the middle of another reader's pass, as a random walk - and catalogs are created from a source while readers are in
+the middle of a pass.  Every record carries (source, row) in its right ascension.  What every reader delivered, operation by
+operation, is compared in Coq with the product model of Model/ChunksBuf.v (w_trace: the state of the world is the list of the
+readers' states, an operation changes its own component only; C18_world_reader_alone: the stream of a reader under any
+interleaving is its stream when run alone) and judged by the statement itself (stream_ok: between two rewinds the records of the
+reader's OWN source, once, in order, in chunks of 1..cs; requested and not yet delivered rows below cs + one row group).  Every
+reader is then driven ALONE through the operations addressed to it (c18_solo_case): a failure that the reader shows only in company
+is reported as `depends-on-other-readers` (the variant with one row-group cache for all readers: C18_shared_buffer_refuted).
 """
 import io
 import itertools
@@ -43,6 +55,7 @@ ALLOWED_AXIOMS = []
 TRUSTED = [
     "logging proxies (harness side) around the data frame, h5py.File datasets and pyarrow ParquetFile; for FITS (Catalog.from_file and reader-history cases) a proxy around astropy's HDU list logs the row slices taken from a column (data[col][a:b]), not what astropy reads for data[col] (astropy memory-maps the table; library behaviour)",
     "the library's default chunk size is read from yaw.catalog.readers.CHUNKSIZE; the checkers evaluate it as max 1 n (C18_param_requests_by_value: the requests are the same for every chunk size that is not below the input length)",
+    "several readers at a time: records are identified by their right ascension ((source * 1024 + row + 1) / 8192 rad, exact in float64, coordinates handed over in radians); the row groups a Parquet reader requests are logged by the proxy of the ParquetFile it was constructed with; what get_probe and Catalog.from_* read internally is not observed (their results are: rows of the probe, records stored)",
     "simulated multiprocessing (harness/sim/pool.py) for the runs with 2-4 workers: Pool.map executes the tasks of one chunk in the calling process in a harness-chosen order, the writer process runs at join(); the sizes of the tasks of every Pool.map call are logged by a subclass of the simulated pool",
 ]
 ASSUMPTIONS = ["a new pass is recognised by a request that starts again at row 0 (Catalog.from_* cases; in the reader-history "
@@ -52,7 +65,9 @@ RULE = ("cases = (source, n, cs, patch mode incl. generated centres = 2 passes, 
         "non-trivial when n > cs (more than one request per pass); "
         "reader-history cases = (source, n, cs, history of operations on the reader object, final pass: for-loop | "
         "write_patches | create_patch_centers + write_patches, workers); non-trivial when some complete pass starts "
-        "from a partially consumed reader")
+        "from a partially consumed reader; "
+        "worlds of readers = (kinds, lengths, row groups and chunk sizes of 2-3 readers, which of them share a source, the interleaved "
+        "list of operations); non-trivial when some operation is applied to a reader while ANOTHER reader is partially consumed")
 HEADER = "From Verif Require Import Prelude Chunks ChunksBuf Writer.\nOpen Scope nat_scope.\n"
 
 
@@ -994,6 +1009,467 @@ def history_verdict(ctx, i, c, meta):
         ctx.disagree("Cases_C18:history", i, dict(code=c, meta=meta))
 
 
+# ---------------------------------------------------------------------------------------------------------------
+# several readers alive at the same time
+# ---------------------------------------------------------------------------------------------------------------
+WORLD_KINDS = ("parquet", "parquet", "fits", "hdf5", "df", "random")
+FOREIGN = 4999        # row number given to a delivered record that is not a record of the reader's own source
+W_SLOT = 1024         # record identity: ra = (source * W_SLOT + row + 1) / 8192 rad
+
+
+def world_columns(fid, n):
+    rows = np.arange(n)
+    return {"ra": (fid * W_SLOT + rows + 1) / 8192.0, "dec": ((rows * 53) % 89 - 44) / 256.0, "pid": (rows % 2).astype("i8")}
+
+
+def world_rows(ra, fid):
+    """row numbers (within source fid) of delivered records; FOREIGN for a record of another source / of no source"""
+    out = []
+    for v in np.asarray(ra, dtype="f8") * 8192.0 - 1.0:
+        iv = int(round(float(v)))
+        f, r = divmod(iv, W_SLOT)
+        out.append(r if (iv == v and iv >= 0 and f == fid) else FOREIGN)
+    return out
+
+
+def world_sources(ctx, rng, tag, nsrc, big, forced=()):
+    """sources of one world: files of every format, a data frame, a random generator; Parquet files with row groups of one size
+    or of uneven sizes; the first sources are of the kinds in `forced`"""
+    import h5py
+    import pyarrow as pa
+    from astropy.io import fits as afits
+    out = []
+    for fid in range(nsrc):
+        kind = forced[fid] if fid < len(forced) else rng.choice(WORLD_KINDS)
+        if big and kind == "parquet":
+            rg = rng.choice([300, 256, 97, 333])
+            n = rng.choice([1000, 700, 3 * rg + 1, 2 * rg + rng.randrange(1, rg)])
+        else:
+            rg = rng.choice([1, 2, 3, 3, 4, 5, 7, 9])
+            n = rng.choice([2 * rg + 1, 3 * rg + 1, 4 * rg - 1 if rg > 1 else 5, 5 * rg + 2, rng.randrange(2, 40)])
+        n = max(2, min(n, W_SLOT - 1))
+        src = dict(fid=fid, kind=kind, n=n, groups=None, path=None)
+        cols = world_columns(fid, n)
+        base = os.path.join(ctx.workdir, "world_%s_%d" % (tag, fid))
+        if kind == "df":
+            src["df"] = impl.make_df(cols)
+        elif kind == "random":
+            src["seed"] = rng.randrange(10 ** 6)
+        elif kind == "hdf5":
+            src["path"] = base + ".hdf5"
+            with h5py.File(src["path"], "w") as f:
+                for kk, v in cols.items():
+                    f.create_dataset(kk, data=v)
+        elif kind == "fits":
+            src["path"] = base + ".fits"
+            afits.BinTableHDU.from_columns([afits.Column(name="ra", format="D", array=cols["ra"]),
+                                            afits.Column(name="dec", format="D", array=cols["dec"]),
+                                            afits.Column(name="pid", format="K", array=cols["pid"])]).writeto(src["path"], overwrite=True)
+        else:
+            src["path"] = base + ".pqt"
+            if rng.random() < 0.65:
+                src["groups"] = write_parquet(src["path"], pa.table(cols), rg, None)
+            else:
+                g, left = [], n
+                while left:
+                    g.append(min(left, rng.randrange(1, 2 * rg + 2)))
+                    left -= g[-1]
+                src["groups"] = write_parquet(src["path"], pa.table(cols), 0, g)
+        out.append(src)
+    return out
+
+
+def world_chunksize(rng, src):
+    """mostly NOT aligned with the row groups (a remainder stays in the reader between two chunks)"""
+    n = src["n"]
+    if src["groups"]:
+        g = max(src["groups"])
+        cands = [c for c in (g - 1, g + 1, 2 * g - 1, 2 * g + 1, g // 2 + 1, 3 * g + 2, rng.randrange(1, 2 * g + 3)) if c >= 1]
+        if rng.random() < 0.15:
+            cands = [g, 2 * g]              # controls: aligned
+        cs = rng.choice(cands)
+    else:
+        cs = rng.choice([1, 2, 3, 4, 5, 7, 9, max(1, n // 3), max(1, n // 2 + 1)])
+    if rng.random() < 0.05:
+        cs = n + rng.randrange(0, 3)        # the whole source in one chunk
+    return max(1, min(cs, 4000))
+
+
+def world_hops(rng, slots, sources, style):
+    """an interleaved list of operations on the readers of a world; every operation is valid (a closed reader is only opened)"""
+    hops, isopen = [], [False] * len(slots)
+    nch = [-(-sources[sl["src"]]["n"] // sl["cs"]) for sl in slots]
+    creatable = [i for i, s_ in enumerate(sources) if s_["kind"] != "random" and s_["n"] >= 2]
+
+    def act(k, what):
+        """one action on reader k, opened first where needed"""
+        if not isopen[k] and what != "open":
+            hops.append(("open", k))
+            isopen[k] = True
+        if what == "open":
+            if isopen[k]:
+                hops.append(("close", k))
+            hops.append(("open", k))
+            isopen[k] = True
+        elif what == "close":
+            hops.append(("close", k))
+            isopen[k] = False
+        elif what == "next":
+            hops.append(("next", k, rng.choice([1, 1, 1, 2, 3])))
+        elif what == "probe":
+            hops.append(("probe", k, rng.randrange(1, min(sources[slots[k]["src"]]["n"], 6) + 1)))
+        elif what == "create":
+            if creatable:
+                i = rng.choice(creatable)
+                hops.append(("create", i, world_chunksize(rng, sources[i])))
+        else:
+            hops.append((what, k))
+
+    ks = list(range(len(slots)))
+    if style == "lockstep":
+        rng.shuffle(ks)
+        for k in ks:
+            act(k, "open")
+        for _ in range(max(nch) + 1):
+            for k in ks:
+                hops.append(("next", k, 1))
+        if rng.random() < 0.5:
+            for k in ks:
+                act(k, "pass")
+    elif style == "intruder":
+        a = rng.choice(ks)
+        others = [k for k in ks if k != a]
+        for b in others:
+            if rng.random() < 0.5:
+                act(b, "open")
+                if rng.random() < 0.5:
+                    act(b, "next")
+        act(a, "open")
+        for _ in range(rng.randrange(1, max(2, nch[a]))):
+            hops.append(("next", a, 1))
+        for _ in range(rng.choice([1, 1, 2, 3])):
+            act(rng.choice(others), rng.choice(["open", "peek", "pass", "iter", "next", "probe", "close", "create", "open", "iter"]))
+        hops.append(("next", a, nch[a] + 1))
+        if rng.random() < 0.5:
+            act(a, rng.choice(["pass", "probe"]))
+    else:
+        for _ in range(rng.randrange(6, 26)):
+            act(rng.choice(ks), rng.choice(["next"] * 8 + ["iter", "peek", "pass", "probe", "close", "open", "create"]))
+    for k in ks:
+        if isopen[k] and rng.random() < 0.8:
+            act(k, "close")
+    return hops
+
+
+def world_run(ctx, readers, sources, slots, hops):
+    """drive the readers of `slots` through `hops`; returns the primitive operations (reader, life_op) with what the addressed
+    reader was seen to do.  Used for the interleaved run and, with one slot, for the run of a reader alone."""
+    from yaw.randoms import BoxRandoms
+    rds, logs = [None] * len(slots), [None] * len(slots)
+    res = dict(prims=[], obs=[], err=None, probes=[], creates=[], values=[[] for _ in slots], temps=[], mid=0)
+    pos = [None] * len(slots)           # records delivered since the last rewind (None = not open); statistics only
+
+    def emit(k, lop, ob):
+        res["prims"].append((k, lop))
+        res["obs"].append(ob)
+
+    def others_partial(k):
+        return any(j != k and pos[j] is not None and 0 < pos[j] < sources[slots[j]["src"]]["n"] for j in range(len(slots)))
+
+    def take(k, j):
+        src = sources[slots[k]["src"]]
+        outs = []
+        for _ in range(j):
+            mark = len(logs[k]) if logs[k] is not None else 0
+            try:
+                c = next(rds[k])
+            except StopIteration:
+                break
+            reqs = [r for r in logs[k][mark:] if r < len(src["groups"])] if logs[k] is not None else []
+            if src["kind"] == "random":
+                rows = [0] * len(c)
+                res["values"][k].append((c["ra"].tobytes(), c["dec"].tobytes()))
+            else:
+                rows = world_rows(c["ra"], src["fid"])
+            outs.append((reqs, rows))
+            pos[k] += len(rows)
+            if len(outs) > src["n"] + 8:
+                raise RunawayRequests("more than %d chunks" % (src["n"] + 8))
+        return outs
+
+    impl.set_threads(1)
+    try:
+        for hi, hop in enumerate(hops):
+            what, k = hop[0], hop[1]
+            res["at"] = hi
+            if what == "create":
+                src, cs_t = sources[k], hop[2]
+                if any(p is not None and 0 < p < sources[slots[j]["src"]]["n"] for j, p in enumerate(pos)):
+                    res["mid"] += 1
+                t = len(slots) + len(res["temps"])
+                res["temps"].append(dict(src=k, cs=cs_t))
+                cache = impl.fresh_dir(ctx, "wcat")
+                kw = dict(ra_name="ra", dec_name="dec", patch_name="pid", degrees=False, chunksize=cs_t, max_workers=1, overwrite=True)
+                if src["kind"] == "df":
+                    cat = impl.Catalog.from_dataframe(cache, src["df"], **kw)
+                else:
+                    cat = impl.Catalog.from_file(cache, src["path"], **kw)
+                stored = sorted(r for rec in impl.patch_records(cat).values() for r in world_rows(rec["ra"], src["fid"]))
+                del cat
+                shutil.rmtree(cache, ignore_errors=True)
+                res["creates"].append(dict(hop=hi, src=k, ok=stored == list(range(src["n"])), stored=len(stored),
+                                           foreign=stored.count(FOREIGN)))
+                emit(t, "LOpen", [])
+                emit(t, "LDo RdPass", None)
+                emit(t, "LClose", [])
+                continue
+            src, cs = sources[slots[k]["src"]], slots[k]["cs"]
+            if what != "open" and others_partial(k):
+                res["mid"] += 1
+            if what == "open":
+                if others_partial(k):
+                    res["mid"] += 1
+                common = dict(ra_name="ra", dec_name="dec", degrees=False, chunksize=cs)
+                logs[k] = None
+                if src["kind"] == "df":
+                    rds[k] = readers.DataFrameReader(src["df"], **common)
+                elif src["kind"] == "random":
+                    rds[k] = readers.RandomReader(BoxRandoms(10.0, 35.0, -5.0, 6.0, seed=src["seed"]), src["n"], chunksize=cs)
+                elif src["kind"] == "parquet":
+                    logs[k] = []
+                    with parquet_logged(readers, logs[k]):
+                        rds[k] = readers.new_filereader(src["path"], **common)
+                else:
+                    rds[k] = readers.new_filereader(src["path"], **common)
+                pos[k] = 0
+                emit(k, "LOpen", [])
+            elif what == "close":
+                rds[k].__exit__(None, None, None)
+                rds[k], pos[k] = None, None
+                emit(k, "LClose", [])
+            elif what == "iter":
+                iter(rds[k])
+                pos[k] = 0
+                emit(k, "LDo RdIter", [])
+            elif what == "next":
+                emit(k, "LDo (RdNext %d)" % hop[2], take(k, hop[2]))
+            elif what == "peek":
+                iter(rds[k])
+                pos[k] = 0
+                emit(k, "LDo RdIter", [])
+                emit(k, "LDo (RdNext 1)", take(k, 1))
+            elif what == "pass":
+                iter(rds[k])
+                pos[k] = 0
+                emit(k, "LDo RdPass", take(k, src["n"] + 9))
+            elif what == "probe":
+                got = rds[k].get_probe(hop[2])
+                if src["kind"] == "random":     # one call of the generator; the state of the iteration is not touched
+                    res["values"][k].append((got["ra"].tobytes(), got["dec"].tobytes()))
+                    res["probes"].append(dict(hop=hi, k=k, ok=len(got) == hop[2], got=len(got), want=hop[2]))
+                else:
+                    rows = sorted(world_rows(got["ra"], src["fid"]))
+                    want = sorted(np.linspace(0, src["n"] - 1, hop[2]).astype(int).tolist())
+                    res["probes"].append(dict(hop=hi, k=k, ok=rows == want, got=rows[:12], want=want[:12]))
+                    pos[k] = src["n"]
+                    emit(k, "LDo RdPass", None)
+            else:
+                raise AssertionError(what)
+    except Exception as e:  # noqa: BLE001 - every operation of the plan is valid
+        res["err"] = e
+    finally:
+        for rd in rds:
+            if rd is not None:
+                try:
+                    rd.__exit__(None, None, None)
+                except Exception:  # noqa: BLE001
+                    pass
+    return res
+
+
+def world_cfg_term(src, cs):
+    if src["kind"] == "parquet":
+        return "(CPq %s (rows_of_sizes %s))" % (fq.nat(cs), fq.nlist(src["groups"]))
+    return "(COff %s %s %s)" % (fq.b(src["kind"] != "random"), fq.nat(src["n"]), fq.nat(cs))
+
+
+def world_obs_term(obs):
+    return fq.lst(["None" if ob is None else "(Some %s)" % fq.lst([fq.pair(fq.nlist(q), fq.nlist(r)) for q, r in ob]) for ob in obs])
+
+
+def world_diagnose(src, cs, seq):
+    """what is wrong with the stream of one reader (for the message and the variant of the signature; the verdict is Coq's)"""
+    n, groups, ids = src["n"], src["groups"] or [], src["kind"] != "random"
+    maxg = max(groups) if groups else 0
+    pos = loaded = foreign = 0
+    bad, buf = [], []
+    for lop, ob in seq:
+        if not lop.startswith("LDo (RdNext") and lop != "LDo RdPass":
+            pos = loaded = 0
+            continue
+        if ob is None:
+            if lop == "LDo RdPass":
+                pos = loaded = n
+            continue
+        if lop == "LDo RdPass":
+            pos = loaded = 0
+        for reqs, rows in ob:
+            loaded += sum(groups[i] for i in reqs)
+            foreign += rows.count(FOREIGN) if ids else 0
+            if not 1 <= len(rows) <= cs:
+                bad.append("a chunk of %d records (chunk size %d)" % (len(rows), cs))
+            elif pos + len(rows) > n or (ids and rows != list(range(pos, pos + len(rows)))):
+                bad.append("rows %s delivered where rows %d.. were due" % (rows[:6], pos))
+            if loaded and not loaded - pos < cs + maxg:
+                buf.append("%d rows requested and not yet delivered (chunk size %d, largest row group %d)" % (loaded - pos, cs, maxg))
+            pos += len(rows)
+        want = None if lop == "LDo RdPass" else int(lop[len("LDo (RdNext "):-1])
+        if pos != n and (want is None or len(ob) < want):
+            bad.append("%s ended after %d of %d records" % ("the pass" if want is None else "iteration", pos, n))
+        if want is not None and len(ob) > want:
+            bad.append("more chunks than calls")
+    return bad, buf, foreign
+
+
+def world_cases(ctx, readers, terms, metas, idx):
+    rng = ctx.rng
+    styles = ["lockstep", "intruder", "intruder", "walk", "walk"]
+    nworlds = ctx.n(240, 2500)
+    t_start, first = __import__("time").time(), idx
+    for wi in range(nworlds):
+        big = (wi % 23 == 5) if ctx.quick() else (wi % 15 == 5)
+        nslots = rng.choice([2, 2, 3])
+        nsrc = rng.randrange(1, nslots + 1) if rng.random() < 0.4 else nslots
+        # every fourth world: two readers of ONE kind (each kind in turn), on two sources or on the same one
+        same = ("parquet", "fits", "hdf5", "df", "random")[(wi // 4 * 2 + wi // 20 + ctx.seed) % 5] if wi % 4 == 0 else None
+        sources = world_sources(ctx, rng, "%d" % wi, nsrc, big, forced=(same,) * min(2, nsrc) if same else ())
+        order = list(range(nsrc)) + [rng.randrange(nsrc) for _ in range(nslots - nsrc)]
+        rng.shuffle(order)
+        slots = [dict(src=i, cs=world_chunksize(rng, sources[i])) for i in order]
+        style = styles[wi % len(styles)]
+        hops = world_hops(rng, slots, sources, style)
+        w = world_run(ctx, readers, sources, slots, hops)
+        kinds = [sources[sl["src"]]["kind"] for sl in slots]
+        spec = dict(world=True, style=style, hops=[list(h) for h in hops],
+                    sources=[dict(kind=s_["kind"], n=s_["n"], groups=s_["groups"]) for s_ in sources],
+                    readers=[dict(source=sl["src"], kind=kd, chunksize=sl["cs"]) for sl, kd in zip(slots, kinds)])
+        ctx.count(key=("world", tuple((s_["kind"], s_["n"], tuple(s_["groups"] or ())) for s_ in sources),
+                       tuple((sl["src"], sl["cs"]) for sl in slots), tuple(hops)),
+                  nontrivial=w["mid"] > 0, kind="world/%s/%s" % (style, "+".join(sorted(kinds))))
+        ctx.bump("world:%s" % ("operation_while_another_reader_is_partially_consumed" if w["mid"] else "no_overlap"))
+        if len(set(order)) < len(order):
+            ctx.bump("world:two_readers_on_one_source")
+        if kinds.count("parquet") >= 2:
+            ctx.bump("world:two_parquet_readers")
+        for h in hops:
+            ctx.bump("world-op:%s" % h[0])
+        # every reader alone, driven through the operations addressed to it (a fresh object on the same source)
+        solos = []
+        for k, sl in enumerate(slots):
+            mine = [(h[0], 0) + tuple(h[2:]) for h in hops if h[0] != "create" and h[1] == k]
+            if w["err"] is not None:
+                mine = [(h[0], 0) + tuple(h[2:]) for h in hops[:w["at"] + 1] if h[0] != "create" and h[1] == k]
+            solos.append(world_run(ctx, readers, sources, [sl], mine))
+        for s_ in sources:
+            if s_["path"] and os.path.exists(s_["path"]):
+                os.unlink(s_["path"])
+        if w["err"] is not None:
+            hop = hops[w["at"]]
+            k = hop[1] if hop[0] != "create" else None
+            kind = sources[hop[1]]["kind"] if k is None else kinds[k]
+            alone = k is not None and solos[k]["err"] is not None
+            base = "c18-raises" if alone else ("c18-creation-raises-with-live-readers" if k is None else "c18-reader-raises-with-other-readers")
+            sig = "c18-pass-never-ends" if alone and isinstance(w["err"], RunawayRequests) else "%s:%s:%s" % (base, kind, type(w["err"]).__name__)
+            ctx.fail(sig, "%d readers alive (%s): operation #%d %s raised %r%s" % (
+                len(slots), ", ".join("%s n=%d cs=%d" % (kd, sources[sl["src"]]["n"], sl["cs"]) for sl, kd in zip(slots, kinds)),
+                w["at"], list(hop), w["err"], "; the same reader driven alone raises as well" if alone else
+                "; the same operations on that reader alone do not raise"), spec, case=idx)
+            idx += 1
+            continue
+        # results of probes and creations (not part of the streams)
+        for pr in w["probes"]:
+            if not pr["ok"]:
+                k = pr["k"]
+                alone = any(not q["ok"] for q in solos[k]["probes"])
+                ctx.fail("%s:%s" % ("c18-probe" if alone else "c18-probe-depends-on-other-readers", kinds[k]),
+                         "get_probe on a %s reader returned rows %s instead of %s while %d other readers were alive%s"
+                         % (kinds[k], pr["got"], pr["want"], len(slots) - 1, " (alone as well)" if alone else " (alone: correct)"),
+                         spec, case=idx)
+        for cr in w["creates"]:
+            if not cr["ok"]:
+                ctx.fail("c18-creation-with-live-readers:%s" % sources[cr["src"]]["kind"],
+                         "a catalog created from a %s source of %d records while other readers were alive stores %d records, %d of them "
+                         "not of that source" % (sources[cr["src"]]["kind"], sources[cr["src"]]["n"], cr["stored"], cr["foreign"]), spec, case=idx)
+        # a random reader alone must generate what it generates in company (its generator is its own)
+        for k, sl in enumerate(slots):
+            if kinds[k] == "random" and solos[k]["err"] is None and solos[k]["values"][0] != w["values"][k]:
+                ctx.fail("c18-reader-stream-depends-on-other-readers:random-values",
+                         "a random reader (%d points, chunk size %d, seed %d) generates other points when other readers are used in "
+                         "between than when driven alone through the same operations" % (sources[sl["src"]]["n"], sl["cs"], sources[sl["src"]]["seed"]),
+                         spec, case=idx)
+        cfgs = [world_cfg_term(sources[sl["src"]], sl["cs"]) for sl in slots] + \
+               [world_cfg_term(sources[t["src"]], t["cs"]) for t in w["temps"]]
+        terms.append("c18_world_case %s %s %s" % (fq.lst(cfgs), fq.lst(["(%d, %s)" % (k, lop) for k, lop in w["prims"]]),
+                                                  world_obs_term(w["obs"])))
+        diag = []
+        for k, sl in enumerate(slots):
+            seq = [(lop, ob) for (kk, lop), ob in zip(w["prims"], w["obs"]) if kk == k]
+            diag.append(world_diagnose(sources[sl["src"]], sl["cs"], seq))
+        widx = idx
+        idx += 1
+        solo_cases = []
+        for k, sl in enumerate(slots):
+            so = solos[k]
+            if so["err"] is not None:
+                ctx.fail("c18-raises:%s:%s" % (kinds[k], type(so["err"]).__name__), "a %s reader (%d records, chunk size %d) driven alone "
+                         "through %s raised %r" % (kinds[k], sources[sl["src"]]["n"], sl["cs"], [h for h in hops if h[0] != "create" and h[1] == k],
+                                                   so["err"]), spec, case=widx)
+                solo_cases.append(None)
+                continue
+            terms.append("c18_solo_case %s %s %s" % (world_cfg_term(sources[sl["src"]], sl["cs"]),
+                                                     fq.lst([lop for _, lop in so["prims"]]), world_obs_term(so["obs"])))
+            seq = [(lop, ob) for (_, lop), ob in zip(so["prims"], so["obs"])]
+            metas.append((idx, dict(world_solo=(widx, k), diag=world_diagnose(sources[sl["src"]], sl["cs"], seq)[:2])))
+            solo_cases.append(idx)
+            idx += 1
+        metas.append((widx, dict(spec, solo_cases=solo_cases, kinds=kinds,
+                                 diag=[dict(stream=d[0][:4], buffer=d[1][:3], foreign=d[2]) for d in diag],
+                                 trace=[(k, lop, None if ob is None else [(q, r[:8]) for q, r in ob[:6]])
+                                        for (k, lop), ob in zip(w["prims"], w["obs"])][:40])))
+        ctx.sample(dict(spec, delivered=[(k, lop, None if ob is None else [r[:6] for _, r in ob[:4]])
+                                         for (k, lop), ob in zip(w["prims"], w["obs"])][:16]), limit=4)
+    ctx.log("worlds of readers: %d worlds, %d cases (interleaved + every reader alone) in %.1fs"
+            % (nworlds, idx - first, __import__("time").time() - t_start))
+    return idx
+
+
+def world_verdict(ctx, i, c, meta, bycase):
+    """bits: 1 rows delivered = product model, 2 row groups requested = product model, 4 the stream of every reader satisfies the
+    statement (own records, once, in order, chunks of 1..cs), 8 buffer bound.  The same bits for every reader driven alone."""
+    solo = [None if j is None else (bycase.get(j) or 0) for j in meta["solo_cases"]]
+    kinds, diag = meta["kinds"], meta["diag"]
+    for bit, name, key in ((4, "stream", "stream"), (8, "buffer", "buffer")):
+        alone = [k for k, sc in enumerate(solo) if sc is not None and sc & bit]
+        for k in alone:
+            ctx.fail("c18-reader-%s-wrong-alone:%s" % (name, kinds[k]), "a %s reader (chunk size %d) driven alone through the operations "
+                     "addressed to it in the interleaving does not deliver the records of its source once, in order, in bounded chunks "
+                     "(code %d)" % (kinds[k], meta["readers"][k]["chunksize"], solo[k]), meta, case=i)
+        if c & bit and not alone:
+            bad = [k for k, d in enumerate(diag) if d[key]] or list(range(len(kinds)))
+            k = bad[0]
+            foreign = sum(d["foreign"] for d in diag)
+            ctx.fail("c18-reader-%s-depends-on-other-readers:%s" % (name, kinds[k]),
+                     "%d readers alive at the same time (%s), operations interleaved (%s): reader %d (%s, %d records, chunk size %d) %s; "
+                     "%d delivered records belong to ANOTHER source; every reader driven alone through the same operations is correct"
+                     % (len(kinds), ", ".join(kinds), meta["style"], k, kinds[k], meta["sources"][meta["readers"][k]["source"]]["n"],
+                        meta["readers"][k]["chunksize"], "; ".join(diag[k][key][:3]) or "violates the statement (code %d)" % c, foreign),
+                     meta, case=i)
+    if c & 3 and not c & 12:
+        ctx.disagree("Cases_C18:world", i, dict(code=c, solo=solo, meta=meta))
+    for k, sc in enumerate(solo):
+        if sc is not None and sc & 3 and not sc & 12:
+            ctx.disagree("Cases_C18:world-solo", meta["solo_cases"][k], dict(code=sc, reader=k, meta=meta))
+
 
 def run(ctx):
     import yaw.catalog.readers as readers
@@ -1492,9 +1968,15 @@ def run(ctx):
         metas.append((idx, dict(spec, effective_workers=eff_w, call_sizes=[int(x) for x in sizes][:60], tasks=tasks[:40])))
         idx += 1
     idx = history_cases(ctx, readers, terms, metas, idx)
+    idx = world_cases(ctx, readers, terms, metas, idx)
+    metas.sort(key=lambda m: m[0])       # terms are appended in the order of their case numbers
     codes = ctx.shards("Cases_C18", HEADER, terms, shard=100)
+    bycase = {i: c for (i, _), c in zip(metas, codes)}
     for (i, meta), c in zip(metas, codes):
-        if not c:
+        if meta.get("world"):
+            world_verdict(ctx, i, c or 0, meta, bycase)
+            continue
+        if not c or "world_solo" in meta:
             continue
         if meta.get("history"):
             history_verdict(ctx, i, c, meta)
